@@ -250,3 +250,68 @@ func zzC10AfterTakeover() {
 }
 
 func ZZ_C10_AfterTakeover() { zzC10AfterTakeover() }
+
+// The life of a URR before the report: a URR id can be removed and provisioned again, queried and
+// updated, its PDR can go away - and after any such history a usage report the data plane produces
+// for a URR that exists NOW must still reach the SMF (a report for the earlier incarnation may have
+// been the last thing the bookkeeping saw). The data plane is the relaxed one: a query, an update or
+// a removal yields 0 or 1 report (the repository's no-op driver and gtp5g on an empty answer yield
+// none).
+func zzC10AfterHistory(depth int) {
+	w := zzMkSeq()
+	w.dp.repCap = 1
+	for i := 0; i < depth; i++ {
+		w.seq++
+		switch nondetChoice("op", 5) {
+		case 0:
+			zzDeliver(w.s, zzModReq(1, w.seq, ie.NewQueryURR(ie.NewURRID(1))), zzAddrA, w.seq)
+		case 1:
+			zzDeliver(w.s, zzModReq(1, w.seq, ie.NewUpdateURR(ie.NewURRID(1), ie.NewMeasurementMethod(0, 1, 0))), zzAddrA, w.seq)
+		case 2:
+			zzDeliver(w.s, zzModReq(1, w.seq, ie.NewRemoveURR(ie.NewURRID(1))), zzAddrA, w.seq)
+			w.urr[0] = false
+		case 3:
+			zzAssume(!w.urr[0])
+			zzDeliver(w.s, zzModReq(1, w.seq, ie.NewCreateURR(ie.NewURRID(1), ie.NewMeasurementMethod(0, 1, 0), ie.NewReportingTriggers(0x02, 0x00))), zzAddrA, w.seq)
+			w.urr[0] = true
+			zzCover("C10.history.recreated")
+		case 4:
+			zzAssume(w.pdr)
+			zzDeliver(w.s, zzModReq(1, w.seq, ie.NewRemovePDR(ie.NewPDRID(1))), zzAddrA, w.seq)
+			w.pdr = false
+		}
+	}
+	if !w.urr[0] {
+		zzCover("C10.history.urr-gone")
+		return // a report for a URR that no longer exists: covered by ZZ_C10_Notify (dropped)
+	}
+	base := zzSentCount()
+	r := report.USAReport{URRID: 1}
+	r.USARTrigger.Flags = report.USAR_TRIG_PERIO
+	r.VolumMeasure.TotalVolume = nondetU64("counter")
+	w.s.ServeReport(&report.SessReport{SEID: 1, Reports: []report.Report{r}})
+	zzAssert("C10.history.report-sent", zzSentCount() == base+1)
+	if zzSentCount() == base+1 {
+		b := zzSentBytes(base)
+		h := zzParseHdr(b)
+		zzAssert("C10.history.report-request", h.ok && h.typ == 56 && h.s && h.seid == w.sess.RemoteID)
+		urs := zzUsageReports(b, h, 80)
+		zzAssert("C10.history.one-usage-report", len(urs) == 1)
+		if len(urs) == 1 {
+			zzAssert("C10.history.names-the-urr", urs[0].hasURR && urs[0].urr == 1)
+			if urs[0].hasVol && len(urs[0].vol) >= 9 {
+				var v uint64
+				for j := 0; j < 8; j++ {
+					v = v<<8 | uint64(urs[0].vol[1+j])
+				}
+				zzAssert("C10.history.total-volume", v == r.VolumMeasure.TotalVolume)
+			}
+		}
+	}
+	// ... and the one after it as well
+	w.s.ServeReport(&report.SessReport{SEID: 1, Reports: []report.Report{r}})
+	zzAssert("C10.history.next-report-sent", zzSentCount() == base+2)
+	zzCover("C10.history.done")
+}
+
+func ZZ_C10_AfterHistory() { zzC10AfterHistory(3 + zzTier()) }
